@@ -564,6 +564,7 @@ def run(chk, tier, seed):
     }  # fmt: skip
     for i, u in enumerate(units):
         judge(chk, u, by_unit[i], stats, tilt_cache)
+    walks(chk, tier, seed)
     chk.extra["units"] = len(units)
     cpu = {}
     for i, u in enumerate(units):
@@ -586,7 +587,96 @@ def run(chk, tier, seed):
     )
 
 
+# ----------------------------------------------------------------------------- objects with a history
+
+
+def walk_task(item):
+    """The force/energy relation must also hold for a Molecule object that has already been evaluated at other
+    geometries (as MD and the built-in optimiser do): one object is walked along a bond-stretch path on which
+    frontier orbitals change order, carrying density, amplitudes and tracked orbitals; at every point its Etot and
+    force are compared with a fresh object at the same geometry and the force with a central difference of fresh
+    energies."""
+    import torch
+
+    name, method, active, mode, bond, path, rot = item
+    base = M.apply(M.get(name), M.generic_rot(rot))
+    a, b = bond
+    u = base["coords"][b] - base["coords"][a]
+    u = u / np.linalg.norm(u)
+    r0 = float(np.linalg.norm(base["coords"][b] - base["coords"][a]))
+
+    def geom(r):
+        m = dict(base)
+        c = base["coords"].copy()
+        c[b:] = c[b:] + (r - r0) * u  # rigidly shift atom b and everything listed after it
+        m["coords"] = c
+        return m
+
+    def params():
+        p = sp.make_params(method, eps=1e-10, force_mode=mode)
+        if active:
+            p["excited_states"] = {"n_states": 3, "method": "cis", "tolerance": 1e-9}
+            p["active_state"] = active
+        return p
+
+    def fresh(m):
+        molecule, es = sp.build([m], params())
+        molecule.verbose = False
+        es(molecule)
+        return float(molecule.Etot[0]), sp.to_np(molecule.force)[0]
+
+    molecule, es = sp.build([geom(path[0])], params())
+    molecule.verbose = False
+    worst = {"dE": 0.0, "dF": 0.0, "dFD": 0.0}
+    for r in path:
+        g = geom(r)
+        with torch.no_grad():
+            molecule.coordinates.copy_(torch.as_tensor(g["coords"]).unsqueeze(0))
+        es(molecule, P0=molecule.dm, cis_amp=molecule.cis_amplitudes)
+        E, F = float(molecule.Etot[0]), sp.to_np(molecule.force)[0]
+        Ef, Ff = fresh(g)
+        worst["dE"] = max(worst["dE"], abs(E - Ef))
+        worst["dF"] = max(worst["dF"], float(np.abs(F - Ff).max()))
+    # derivative along the stretch at the last point, from fresh energies
+    h = 2e-3
+    e = {k: fresh(geom(path[-1] + k * h))[0] for k in (-2, -1, 1, 2)}
+    dEdr = (8 * (e[1] - e[-1]) - (e[2] - e[-2])) / (12 * h)
+    Fr = float((F[b:] * u).sum())  # force on the shifted group projected on the stretch direction
+    worst["dFD"] = abs(Fr + dEdr)
+    return worst
+
+
+def walks(chk, tier, seed):
+    items = []
+    for mode in ("analytical", "autodiff"):
+        items.append(("H2CO", "AM1", 1, "analytical", (0, 1), [1.2, 1.5, 1.8], seed))
+        items.append(("H2CO", "AM1", 0, mode, (0, 1), [1.2, 1.5, 1.8], seed))
+    items.append(("H2CO", "AM1", 2, "analytical", (0, 1), [1.2, 1.5, 1.8], seed))
+    if tier != "quick":
+        items.append(("CH3OH", "AM1", 1, "analytical", (0, 1), [1.42, 1.7, 2.0], seed))
+        items.append(("CH3OH", "PM3", 0, "analytical", (0, 1), [1.42, 1.7, 2.0], seed))
+    items = list(dict.fromkeys(items))
+    res = pmap(walk_task, items, chunk=1, timeout=1800, progress="C01 objects with a history")
+    for it, r in zip(items, res):
+        key = f"walk|{it[0]}|{it[1]}|S{it[2]}|{it[3]}|path={it[5]}"
+        desc = dict(kind="history_walk", molecule=it[0], method=it[1], active_state=it[2], mode=it[3])
+        if isinstance(r, dict) and ("__error__" in r or "__timeout__" in r):
+            chk.violation(desc, f"{key}: {str(r)[:300]}", replay={"walk": list(it)})
+            continue
+        chk.case(key, nontrivial=True, outcome=f"{r['dF']:.1e}")
+        # measured on the healthy tree: dE <= 2.2e-9, dF <= 1.1e-8, |F + dE/dr| <= 3.8e-8 (a stretched triple bond such as
+        # HCN at 1.7 A has several SCF solutions and is outside the statement: not in the path alphabet)
+        if r["dE"] > 1e-6 or r["dF"] > 1e-5 or r["dFD"] > 1e-5:
+            chk.violation(desc, f"{key}: an object with a history differs from a fresh one: dE={r['dE']:.2e} eV, dF={r['dF']:.2e} eV/A; |F + dE/dr| = {r['dFD']:.2e} at the last point", replay={"walk": list(it)})
+
+
 def replay(payload):
+    if isinstance(payload.get("replay"), dict) and payload["replay"].get("walk"):
+        it = payload["replay"]["walk"]
+        it[4] = tuple(it[4])
+        r = walk_task(tuple(it))
+        print(r)
+        return r["dE"] <= 1e-6 and r["dF"] <= 1e-5 and r["dFD"] <= 1e-5
     unit = payload["replay"]
     res = run_unit(unit)
     ok = True
